@@ -454,7 +454,7 @@ void Run::adv_move() {
 		case 4: g[2] = "0"; break; case 5: g[2] = "-3"; break; case 6: g[2] = HUGEV; break;
 		case 7: g[3] = "0"; break; case 8: g[3] = "8"; break; case 9: g[3] = "9"; break; case 10: g[3] = HUGEV; break; case 11: g[3] = "-1"; break;
 		case 12: g[0] = (arng.coin() ? g[0] + "7" : std::string("424242")); break;
-		default: g[4] = std::string(HUGEV) + HUGEV + HUGEV + HUGEV + HUGEV; break; }
+		default: g[3] = arng.coin() ? "2" : "3"; g[4] = std::string(HUGEV) + HUGEV + HUGEV + HUGEV + HUGEV; break; }   // over-long digest
 		if ((z == 6 || z == 12) && g[3] == "1") { int sj = (g[1].size() < 3 && atoi(g[1].c_str()) >= 0 && atoi(g[1].c_str()) < n) ? atoi(g[1].c_str()) : b; int sc = ctx_of_id(g[0]) >= 0 ? ctx_of_id(g[0]) : 0; g[4] = std::to_string(pay_make(sj, sc, 98000 + (long)arng.below(999), 7)); }   // keep payloads unique per tag
 		cnt[std::string("adv_malformed_") + std::to_string(z)]++;
 		for (int x : subset((int)arng.below(4))) inject(b, x, g);
@@ -543,7 +543,7 @@ std::string Run::trace_json(size_t from, size_t to) const {
 	return J().arr("t", out).str();
 }
 std::string Run::cfg_json() const {
-	J j; j.kv("n", n).kv("t", t); std::vector<int> bz(byz_ids.begin(), byz_ids.end()); j.arrn("byz", bz);
+	J j; j.kv("n", n).kv("thr", t); std::vector<int> bz(byz_ids.begin(), byz_ids.end()); j.arrn("byz", bz);
 	std::string cs = "["; for (size_t c = 0; c < cfg.ctx.size(); c++) { if (c) cs += ","; cs += J().kv("name", cfg.ctx[c].name).kv("parent", cfg.ctx[c].parent).kv("fifo", cfg.ctx[c].fifo).kv("id", cfg.ctx[c].id).str(); } cs += "]";
 	j.raw("ctx", cs).kv("tmpl", cfg.tmpl).kv("sched", cfg.sched).kv("pct_d", cfg.pct_d).kv("adv_profile", cfg.adv_profile).kv("adv_budget", cfg.adv_budget);
 	j.arrn("style", cfg.style);
@@ -563,7 +563,7 @@ std::string Run::rec_json() const {
 
 // ================================================================ schedulers
 struct MainSched {
-	Run &R; long adv_left; std::map<int, long> prio; std::set<long> change; long lowest = 0; bool released = false;
+	Run &R; long adv_left; std::map<int, long> prio; std::set<long> change; long lowest = 0, stall = 0; bool released = false;
 	MainSched(Run &r) : R(r), adv_left(r.byz_ids.empty() ? 0 : r.cfg.adv_budget) {
 		if (R.cfg.sched == 1) {
 			long est = (long)R.cfg.nbcast * (R.n + 2L * R.n * R.n) + 20;
@@ -587,7 +587,8 @@ struct MainSched {
 				for (auto &l : L) { int th = l.first * n + l.second; if (pr(th) > bp) { bp = pr(th); best = th; } }
 				for (int p : P) { int th = n * n + p; if (pr(th) > bp) { bp = pr(th); best = th; } }
 				if (adv) { int th = n * n + n; if (pr(th) > bp) { bp = pr(th); best = th; } }
-				if (best < n * n) R.handover(best / n, best % n, R.pick_mode(best % n));
+				if (best < n * n) { size_t e0 = R.ev.size(); R.handover(best / n, best % n, R.pick_mode(best % n));
+					if (R.ev.size() == e0) { if (++stall > 300) { for (auto &st : R.cfg.style) st = 0; stall = 0; R.cnt["obs_deliverfrom_only_party_stalled"]++; } } else stall = 0; }
 				else if (best < n * n + n) R.api_step(best - n * n);
 				else { R.adv_move(); adv_left--; R.mix(0xA0000); R.steps++; }
 				if (change.count(R.steps)) { prio[best] = --lowest; R.cnt["pct_change_points"]++; }
@@ -597,7 +598,8 @@ struct MainSched {
 			long wL = L.empty() ? 0 : 100, wP = P.empty() ? 0 : c.w_api, wA = adv ? c.w_adv : 0, wI = I.empty() ? 0 : c.w_idle;
 			if (L.empty()) { wP *= 4; wA *= 4; }
 			long r = (long)R.srng.below(wL + wP + wA + wI);
-			if (r < wL) { auto l = L[R.srng.below(L.size())]; R.handover(l.first, l.second, R.pick_mode(l.second)); }
+			if (r < wL) { auto l = L[R.srng.below(L.size())]; size_t e0 = R.ev.size(); R.handover(l.first, l.second, R.pick_mode(l.second));
+				if (R.ev.size() == e0) { if (++stall > 300) { for (auto &st : R.cfg.style) st = 0; stall = 0; R.cnt["obs_deliverfrom_only_party_stalled"]++; } } else stall = 0; }
 			else if (r < wL + wP) R.api_step(P[R.srng.below(P.size())]);
 			else if (r < wL + wP + wA) { R.adv_move(); adv_left--; R.mix(0xA0000); R.steps++; }
 			else { int p = I[R.srng.below(I.size())]; R.deliver_call(p, R.pick_mode(p)); R.mix(0xB0000 + p); R.steps++; R.cnt["idle_deliver_calls"]++; }
@@ -689,7 +691,15 @@ struct CaseAcc {
 		}
 	}
 };
-static void run_full(Run &R) { MainSched ms(R); ms.run(); if (!R.capped) R.epilogue(); R.final_checks(); }
+static void run_full(Run &R) {
+	MainSched ms(R); ms.run();
+	if (R.capped && !R.flood && (long)R.msgs.size() <= 20000) {      // only the step bound was hit (e.g. a PCT priority schedule that starves a link): finish fairly
+		R.capped = false; R.cnt["obs_main_phase_step_bound"]++;
+		for (int p : R.honest_ids) while (R.api_enabled(p)) R.api_step(p);
+	}
+	if (!R.capped) R.epilogue();
+	R.final_checks();
+}
 
 // ================================================================ scripted runs (systematic + directed)
 static Cfg fixed_cfg(int n, int t, std::vector<int> byz, int fifo_mode, int tmpl, std::map<int, int> bcasts /* sender -> count (first segment) */) {
@@ -843,7 +853,7 @@ int main(int argc, char **argv) {
 	if (!init_libTMCG()) { fprintf(stderr, "init_libTMCG failed\n"); return 2; }
 	bool quick = ctx.quick();
 	const int RUNS = (int)ctx.option_l("runs_per_case", 10);
-	const int mult = (int)ctx.option_l("mult", quick ? 1 : 25);
+	const int mult = (int)ctx.option_l("mult", quick ? 1 : 10);
 	static const char *SCHEDN[] = {"random", "pct", "starve"};
 	std::vector<RClass> classes;
 	for (int sched = 0; sched < 3; sched++) {
